@@ -75,6 +75,15 @@ CLAIMED = {
         note="Trusted: TLC, hook VerifHash (thin wrapper around hashValue), harness construction of represented values.",
         technique="TLA+ spec (hash-bucket scan theorem) model-checked with TLC; hash law checked on the real code via hook; behaviours replayed",
         design="6/C12"),
+    "C17": dict(
+        text="Pointer.tla defines RFC 6901 escaping/unescaping, pointer text, the code's one-pass unescape and its index parsing over "
+             "character sequences; TLC checks the round-trip and index laws for all tokens over a hostile alphabet and that "
+             "Resolve.tla's Designates maps the pointer of every location (every subschema-bearing keyword of both drafts, key "
+             "strings, indexes, nested) to exactly that location; each such $ref and each invalid pointer is replayed on the real "
+             "Resolve/Validate with uniquely marked targets.",
+        note="Trusted: TLC, net/url fragment decoding, the harness's own pointer escaper / percent-encoder.",
+        technique="TLA+ spec (Pointer.tla + Resolve.tla) model-checked with TLC; behaviours replayed on the real code",
+        design="6/C17"),
 }
 
 NOT_YET = "check not built yet in this round (work in progress; see DESIGN.md section 11)"
